@@ -127,6 +127,24 @@ Definition param_count (t : ctype) : nat :=
   | UNKNOWN_CAMERA => 2
   end%nat.
 
+(* names as kapture / OpenMVG spell them; Props/C14.v checks [param_count], [model_name] and [focal_factor]
+   against Gen/Topenmvg.v, i.e. against the tree under test *)
+Definition all_ctypes : list ctype :=
+  [SIMPLE_PINHOLE; PINHOLE; SIMPLE_RADIAL; RADIAL; OPENCV; OPENCV_FISHEYE; FULL_OPENCV; FOV; SIMPLE_RADIAL_FISHEYE;
+   RADIAL_FISHEYE; THIN_PRISM_FISHEYE; UNKNOWN_CAMERA].
+Definition ctype_name (t : ctype) : string :=
+  match t with
+  | SIMPLE_PINHOLE => "SIMPLE_PINHOLE" | PINHOLE => "PINHOLE" | SIMPLE_RADIAL => "SIMPLE_RADIAL" | RADIAL => "RADIAL"
+  | OPENCV => "OPENCV" | OPENCV_FISHEYE => "OPENCV_FISHEYE" | FULL_OPENCV => "FULL_OPENCV" | FOV => "FOV"
+  | SIMPLE_RADIAL_FISHEYE => "SIMPLE_RADIAL_FISHEYE" | RADIAL_FISHEYE => "RADIAL_FISHEYE"
+  | THIN_PRISM_FISHEYE => "THIN_PRISM_FISHEYE" | UNKNOWN_CAMERA => "UNKNOWN_CAMERA"
+  end.
+Definition model_name (m : mvg_model) : string :=
+  match m with
+  | Mpinhole => "pinhole" | Mradial_k1 => "pinhole_radial_k1" | Mradial_k3 => "pinhole_radial_k3"
+  | Mbrown_t2 => "pinhole_brown_t2" | Mfisheye => "fisheye"
+  end.
+
 Definition focal_factor : Q := 5404319552844595 # 4503599627370496.     (* the double 1.2 *)
 
 (* _export_openmvg_intrinsics: None = ValueError 'Camera model ... not supported' *)
